@@ -564,7 +564,7 @@ VARIANTS = [
                     continue
                 default = field.get_default(options, defer=False)
                 # we don't catch""")),
-    B("C06 data-first: alias conflict guard dropped", "C06", "R06a",
+    B("C06 data-first: alias conflict guard dropped", "C06", "R06b",
       (BASE, """            if not options.ignore_alias_conflicts:
                 if name in provided:""", """            if True:
                 if name in provided:""")),
@@ -821,6 +821,11 @@ VARIANTS = [
                 default = field.get_default(options, defer=False)
                 if not unprovided(default):
                     result[name] = default
+                elif field.is_required(options=options):
+                    # the value is not taken as input and there is no default: a required field is absent
+                    # (as the data-first strategy reports it)
+                    unprovided_fields.add(name)
+                    context.handle_error(exc.AbsenceError(item=name))
                 continue
 
             if not options.ignore_alias_conflicts and not unprovided(conflict):""", """            if not field.aliases and field.is_no_input(value, options=options):
@@ -829,6 +834,9 @@ VARIANTS = [
                 default = field.get_default(options, defer=False)
                 if not unprovided(default):
                     result[name] = default
+                elif field.is_required(options=options):
+                    unprovided_fields.add(name)
+                    context.handle_error(exc.AbsenceError(item=name))
                 continue
 
             if not options.ignore_alias_conflicts and not unprovided(conflict):""")),
@@ -1642,6 +1650,13 @@ VARIANTS = [
 
             provided[name] = value
             parsed = field.parse_value(value, context=context)""")),
+    B("C06 revert F57: field-first omits a required field whose value is refused as input", "C06", "R06f",
+      (BASE, """                elif field.is_required(options=options):
+                    # the value is not taken as input and there is no default: a required field is absent
+                    # (as the data-first strategy reports it)
+                    unprovided_fields.add(name)
+                    context.handle_error(exc.AbsenceError(item=name))
+""", "")),
     G("benign comment and blank lines",
       (RULE, "        context.raise_error()  # raise error if collected\n        return value", "        # flush\n\n        context.raise_error()\n        return value")),
 ]
